@@ -56,3 +56,10 @@ claim('C09',
 claim('C15',
   'bounded model checking with a ghost monitor: memWipe is modelled as "fill with 0xA5 and record the range", memFree asserts that the WHOLE block was wiped and that no octet was written afterwards; real blob.c (exact-size hook) and real high-level functions of belt/brng/botp/bash over uninterpreted kernels with symbolic secrets, success and error paths in one query; plus a lemma on the real memWipe',
   'trusted: CBMC; the monitor in harness/C15/wipe_model.c; compiler honouring the volatile stores of memWipe is not checked; EC-based functions not covered', 'DESIGN.md 3/C15')
+
+claim('C01',
+  'bounded model checking in two layers: kernel lemmas on the real belt_block.c (H table, G boxes for all 2^32 words, one tact of R against the standard, wiring of the E/D macros and D(E(x)) == x over uninterpreted G boxes, exported functions == macro expansion), key expansion, length-block/GF helpers at 64- and 32-bit words, beltFMTCalcB against exact integer thresholds; glue obligations: ECB/CBC/CFB/CTR/MAC == models of the standard and Decr(Encr(x)) == x, DWP/CHE/KWP unwrap accepts exactly the wrap outputs, over an uninterpreted cipher with concrete lengths and symbolic data',
+  'trusted: CBMC, the models of STB 34.101.31 in harness/C01, the H table as appendix data of the standard; hash/HMAC/WBL/BDE/SDE/KRP/PBKDF2 against the standard and beltPolyMul are not decided', 'DESIGN.md 3/C01')
+claim('C07',
+  'bounded model checking with CBMC pointer/bounds checks as the oracle: every Start/Step/Get bundle of belt, bash, brng, botp on a state object of EXACTLY X_keep() octets with exact-size caller buffers (64- and 32-bit words), the same with the library ASSERTs live (NDEBUG off, object-aware disjointness model), real kernels on exact buffers, high-level functions on exact-size blobs (hook), and zz/pp routines on stacks of exactly f_deep() octets; gcd/division/sqrt/irreducibility depths are in the thorough tier and mostly undecided',
+  'trusted: CBMC memory model; cipher/bash-f replaced by arbitrary in-place functions in the layout obligations (their own memory safety is a separate obligation); uninitialised reads are not detected', 'DESIGN.md 3/C07')
